@@ -97,6 +97,95 @@ func genCompletenessCase(t *testing.T, r *hx.RNG, c drvCfg, nTTL int) matcherCas
 	return matcherCase{Cfg: c, Ops: ops}
 }
 
+// optLatticeAlphabet: option kinds and lengths at the decision points of the three option loops
+// (IPv4 options, TCP options, IPv6 hop-by-hop TLVs): end-of-list, NOP / Pad1, lengths 0..4 and beyond,
+// record route / timestamp / router alert / SACK / jumbo kinds.
+var optLatticeAlphabet = []byte{0, 1, 2, 3, 4, 5, 6, 7, 8, 68, 148, 0xc2, 0xff}
+
+// genOptionLatticeCase: one probe, then genuine replies whose OPTION BYTES run over a lattice — in
+// the outer IPv4 header, in the quoted IPv4 header, in the TCP header of direct replies, in an outer
+// IPv6 hop-by-hop header. Well-formed and malformed option lists alike: the real decoders and their
+// models (ip4OptsOK, tcpOpts, hbhTLVs — the hypotheses of the byte-level theorems of C02) must agree
+// on every one of them, and no option list may abort the run (C09).
+// exhaustive = every string of length 4 over the alphabet in each slot; otherwise n random strings
+// (length 4, 8 or 12; for hop-by-hop 6 or 14) per slot.
+func genOptionLatticeCase(t *testing.T, r *hx.RNG, c drvCfg, n int, exhaustive bool) matcherCase {
+	ttl := c.Min
+	ops := []drvOp{{Send: true, TTL: ttl, Gap: 5 * time.Millisecond}}
+	forms := catalogueFor(c.kind(), c.v6())
+	pickForm := func(kind string) (replyForm, bool) {
+		for _, f := range forms {
+			if f.Kind == kind && len(f.OuterOpts)+len(f.QOpts)+len(f.TCPOpts)+len(f.OuterHBH) == 0 && !f.NATAddr && !f.NATPort && f.QTTL < 0 && (kind != "te" || f.Quote == quoteFull) && (kind != "sack" || f.SackN == 1) {
+				return f, true
+			}
+		}
+		return replyForm{}, false
+	}
+	type slot struct {
+		name string
+		base replyForm
+		set  func(f *replyForm, o []byte)
+		lens []int
+	}
+	var slots []slot
+	if te, ok := pickForm("te"); ok {
+		if !c.v6() {
+			slots = append(slots, slot{"outer", te, func(f *replyForm, o []byte) { f.OuterOpts = o }, []int{4, 8, 12}})
+			slots = append(slots, slot{"quoted", te, func(f *replyForm, o []byte) { f.QOpts = o }, []int{4, 8}})
+		} else {
+			slots = append(slots, slot{"hbh", te, func(f *replyForm, o []byte) { f.OuterHBH = o }, []int{6, 14}})
+		}
+	}
+	for _, k := range []string{"synack", "rst", "sack", "echo"} {
+		if d, ok := pickForm(k); ok {
+			switch {
+			case k == "echo" && c.v6():
+				slots = append(slots, slot{"hbh-echo", d, func(f *replyForm, o []byte) { f.OuterHBH = o }, []int{6, 14}})
+			case k == "echo":
+				slots = append(slots, slot{"outer-echo", d, func(f *replyForm, o []byte) { f.OuterOpts = o }, []int{4, 8}})
+			default:
+				slots = append(slots, slot{"tcp-" + k, d, func(f *replyForm, o []byte) { f.TCPOpts = o }, []int{4, 8, 12}})
+			}
+		}
+	}
+	add := func(sl slot, o []byte) {
+		f := sl.base
+		sl.set(&f, append([]byte(nil), o...))
+		rr := r.Fork()
+		ops = append(ops, drvOp{Gap: time.Millisecond}.withMake(func(w map[int][]byte) ([]byte, map[string]string) {
+			from := responderFor(rr, c, f)
+			pkt := f.encode(c.flow(), w[ttl], from, ttl, seqOfProbe(w[ttl]))
+			return pkt, map[string]string{"stream": "opts-lattice", "form": f.Name, "slot": sl.name, "options": hx2(o), "ttl": fmt.Sprint(ttl), "from": from.String()}
+		}))
+	}
+	for _, sl := range slots {
+		if exhaustive && !strings.HasPrefix(sl.name, "hbh") {
+			A := optLatticeAlphabet
+			for _, a := range A {
+				for _, b := range A {
+					for _, c3 := range A {
+						for _, d := range A {
+							add(sl, []byte{a, b, c3, d})
+						}
+					}
+				}
+			}
+			continue
+		}
+		for i := 0; i < n; i++ {
+			o := make([]byte, hx.Pick(r, sl.lens))
+			for j := range o {
+				o[j] = hx.Pick(r, optLatticeAlphabet)
+				if r.Chance(1, 10) {
+					o[j] = byte(r.Intn(256))
+				}
+			}
+			add(sl, o)
+		}
+	}
+	return matcherCase{Cfg: c, Ops: ops}
+}
+
 // genTruncationCase: every truncation length of every catalogue reply for one sent TTL.
 func genTruncationCase(t *testing.T, r *hx.RNG, c drvCfg) matcherCase {
 	ttl := hx.Pick(r, rangeTTLs(c.Min, c.Max))
